@@ -53,4 +53,8 @@ theorem compose_count_wraps_16 :
 theorem save_variable_old_exceeds :
     saveVariableOld (valZeros 49) = .ok 102 ∧ saveVariable (valZeros 49) 100 = .err := by decide
 
+/-- before fix 115d78e: unique_mapping of 200 distinct elements is a mapping of 200 keys under MaxMappingSize 100 -/
+theorem unique_mapping_old_exceeds : uniqueMappingOld 200 200 = .ok 200 ∧ uniqueMapping 200 200 100 = .err ∧
+    uniqueMapping 200 100 100 = .ok 100 := by decide
+
 end NV.C04
